@@ -38,6 +38,7 @@ func main() {
 	t0 := time.Now()
 	total := map[string]int{}
 	byRule := map[string][]int{}
+	sample := map[string]string{}
 	var mu sync.Mutex
 	var wg sync.WaitGroup
 	ch := make(chan int)
@@ -59,6 +60,9 @@ func main() {
 					if !seen[key] {
 						seen[key] = true
 						byRule[key] = append(byRule[key], i)
+						if _, ok := sample[key]; !ok {
+							sample[key] = v.Detail
+						}
 					}
 				}
 				mu.Unlock()
@@ -90,7 +94,7 @@ func main() {
 		if len(c) > 6 {
 			c = c[:6]
 		}
-		fmt.Printf("VIOL %-70s cases=%d e.g. %v\n", k, len(byRule[k]), c)
+		fmt.Printf("VIOL %-70s cases=%d e.g. %v\n      %s\n", k, len(byRule[k]), c, sample[k])
 	}
 	if len(rk) > 0 {
 		os.Exit(1)
